@@ -114,6 +114,7 @@ class Result:
         self.retval = None
         self.choices = None
         self.min_margin = math.inf
+        self.conds = {}  # (static path, idx) -> branch taken (bool), visible Conds only
 
     @property
     def visible(self):
@@ -238,6 +239,8 @@ class Ref:
             elif k == "cond":
                 pred = bool(self.E.ev(st["pred"], env))
                 br = st["T"] if pred else st["F"]
+                if self.ghost == 0:
+                    self.res.conds[(p, idx)] = pred
                 if isinstance(sub, dict) and "__T__" in sub:
                     # both-branch choices (taken from the real trace's two sub-traces):
                     # the untaken branch is evaluated as a ghost, in Cond's own order (T, F)
@@ -300,8 +303,13 @@ def full_choices(tr, prog):
     return out
 
 
-def prior_chooser(rng):
+def prior_chooser(rng, safe=False):
+    """``safe``: values usable as constraints whatever the parents turn out to
+    be (the generator keeps every uniform's lo <= 1.5 and hi >= 1.9)."""
+
     def ch(path, idx, dist, params):
+        if safe and PROBE_KIND.get(dist, dist) == "uniform":
+            return np.float32(rng.uniform(1.52, 1.88))
         return draw(rng, dist, params)
 
     return ch
